@@ -145,7 +145,7 @@ def sec_convolution(rep):
                             class _SI:
                                 integrate = q
 
-                            with rebind(*([] if sy.is_numeric else np_shim_for(pcmod)), (conv, "scipy", _SI), (conv, "interpolation", EkoStub(sy, elog))):
+                            with rebind(*([] if sy.is_numeric else np_shim_for(pcmod, conv)), (conv, "scipy", _SI), (conv, "interpolation", EkoStub(sy, elog))):
                                 rsl = RSL(regf, singf, locf, args={"reg": [sy.ar], "sing": [sy.as_], "loc": [sy.al]})
                                 bf = Basis(sy, 2, mode_log, below)
                                 res, err = conv.convolution(rsl, sy.x, bf)
@@ -161,6 +161,9 @@ def sec_convolution(rep):
                                     return [("no kernel: value = f(x) loc(x)", res, loc_term), ("no kernel: error", err, 0), ("no kernel: no quadrature", len(q.calls), 0)]
                                 out += asked
                                 out.append(("one quadrature", len(q.calls), 1))
+                                if not q.calls:
+                                    out.append(("value on a non-empty domain is not the empty-domain answer", res, sy.U("QUAD", 1) + loc_term))
+                                    return out
                                 c = q.calls[0]
                                 out.append(("value = QUAD + f(x) loc(x)", res, sy.U("QUAD", 1) + loc_term))
                                 out.append(("error = quadrature error", err, sy.U("QERR", 1)))
@@ -410,7 +413,8 @@ def sec_drop_empty(rep):
 
     def build():
         ks = [Kernel(dict(ws), "coeff-a"), Kernel({3: sy.w1}, "coeff-b")]
-        out = cf.Combiner.drop_empty(ks)
+        with rebind(*np_shim_for(cf)):  # numpy predicates (isclose, ...) keep their meaning on symbols
+            out = cf.Combiner.drop_empty(ks)
         return [(k.coeff, dict(k.partons)) for k in out]
 
     paths = explore(build, [], max_paths=64)
@@ -533,7 +537,7 @@ def run(rep, tier, seed, only=None):
         "the factor x of the left-hand side is the convolution point of the scheme (C09 / sec_convolution_point)",
     )
     rep.stub("scipy.integrate.quad -> recording stub", "eko.interpolation.(log_)evaluate_x and BasisFunction -> uninterpreted p_j(u)", "Combiner / coefficient objects -> abstract kernels (compute_local)", "conv.convolution / convolve_vector replaced by their contracts in their callers")
-    for nm, f in (("quad_kers", sec_quad_kers), ("convolution", sec_convolution), ("vector", sec_convolve_vector), ("compute_local", sec_compute_local), ("drop_empty", sec_drop_empty), ("point", sec_convolution_point), ("weightsframe", H.weights_frame), ("aeko", H.eko_basis_standin), ("schemedispatch", lambda r: H.scheme_families(r, tier)), ("distributions", lambda r: __import__("contracts.c03", fromlist=["x"]).sec_sites(r, tier))):
+    for nm, f in (("quad_kers", sec_quad_kers), ("convolution", sec_convolution), ("vector", sec_convolve_vector), ("compute_local", sec_compute_local), ("drop_empty", sec_drop_empty), ("point", sec_convolution_point), ("weightsframe", H.weights_frame), ("aeko", H.eko_basis_standin), ("wiring", lambda r: __import__("contracts.c19", fromlist=["x"]).sec_runner_wiring(r)), ("schemedispatch", lambda r: H.scheme_families(r, tier)), ("distributions", lambda r: __import__("contracts.c03", fromlist=["x"]).sec_sites(r, tier))):
         if only and only not in nm:
             continue
         rep.add(guarded(f"C01/{nm}", lambda f=f: (f(rep), [])[1]))
